@@ -146,6 +146,16 @@ class HeapMixin:
             if rec.frozen:
                 raise E.PyExc(VExc("FrozenInstanceError"), f"{rec.cls}.{attr}")
             self.fire("field_write", v, attr)
+            lists = self.run.members.get(v.oid)
+            if lists and self.contract is not None and rec.cls in self.contract.counters:
+                before = {cn: self.counter_pred(rec.cls, cn, v) for cn in self.contract.counters[rec.cls]}
+                rec.fields[attr] = val
+                for loid in lists:
+                    lr = self.run.rec(loid)
+                    for cn, b in before.items():
+                        if cn in lr.cnt:
+                            lr.cnt[cn] = lr.cnt[cn] - z3.If(b, 1, 0) + z3.If(self.counter_pred(rec.cls, cn, v), 1, 0)
+                return
             rec.fields[attr] = val
             return
         if isinstance(v, VNone):
@@ -355,7 +365,20 @@ class HeapMixin:
             except (E.Unsupported, z3.Z3Exception):
                 r.arr = None
                 r.elem = ("any",)
+        if r.cnt and isinstance(v, VRef):
+            for cn in list(r.cnt):
+                r.cnt[cn] = r.cnt[cn] + z3.If(self.counter_pred(r.elem[1], cn, v), 1, 0)
+            self.run.members.setdefault(v.oid, []).append(ref.oid)
         r.length = r.length + 1
+
+    def counter_pred(self, cls, cn, v):
+        text = self.contract.counters[cls][cn]
+        node = self.verifier.parse_clause(text)
+        self.pure += 1
+        try:
+            return self.truthy(self.eval(node, E.Frame("<spec>", None, {"x": v}, None, "counter")))
+        finally:
+            self.pure -= 1
 
     def list_items(self, ref):
         """python list of SVs if the list is concrete, else None"""
